@@ -237,10 +237,62 @@ class WithClassRef:
         self.cls, self.fn = cls, fn
 
 
+class CallableObj:
+    """plain instance whose class defines __call__: callable(instance) is true, yet it is an ordinary object"""
+
+    def __init__(self, a=None, b=None):
+        self.a, self.b = a, b
+
+    def __call__(self, *args):
+        return self.a
+
+
+def _size(x):
+    return len(x) if isinstance(x, (list, dict, set, tuple, frozenset, collections.deque)) else None
+
+
+class EagerState:
+    """__setstate__ that looks into its state at once (a summary computed on restore)"""
+
+    def __init__(self, items=None):
+        self.items, self.seen = items, _size(items)
+
+    def __getstate__(self):
+        return {'items': self.items}
+
+    def __setstate__(self, state):
+        self.items, self.seen = state['items'], _size(state['items'])
+
+
+class Snapshot:
+    """constructor arguments consumed at once: __reduce__ -> (cls, (src,))"""
+
+    def __init__(self, src=None):
+        self.src, self.size = src, _size(src)
+
+    def __reduce__(self):
+        return (Snapshot, (self.src,))
+
+
+class FalsyState:
+    """__reduce__ with a state that is false in a boolean context: pickle calls __setstate__ for every state but None"""
+    STATES = [{}, 0, '', False, (), [], 0.0, {'k': 1}, 5, 'x', (1, 2)]
+    N_FALSY = 7
+
+    def __init__(self, n=0, which=0):
+        self.n, self.which, self.restored = n, which, 'never'
+
+    def __reduce__(self):
+        return (FalsyState, (self.n, self.which), FalsyState.STATES[self.which])
+
+    def __setstate__(self, state):
+        self.restored = ('called', repr(state))
+
+
 BY_NAME = {'Plain': Plain, 'func': func, 'Color': Color, 'len': len, 'os.path': os.path, 'datetime': datetime, 'dict': dict, 'Point': Point,
            'collections.OrderedDict': collections.OrderedDict, 'os.path.join': os.path.join}
-KINDS_MUTABLE_AFTER = {'plain', 'list', 'dict', 'slotsdict', 'mylist', 'mydict', 'statedict', 'reducestate', 'odict', 'deque', 'slots', 'reducelist', 'reducedict'}
-PLAIN_CYCLE_KINDS = {'plain', 'list', 'dict'}          # cycles through these only must be preserved
+KINDS_MUTABLE_AFTER = {'callable', 'plain', 'list', 'dict', 'slotsdict', 'mylist', 'mydict', 'statedict', 'reducestate', 'odict', 'deque', 'slots', 'reducelist', 'reducedict'}
+PLAIN_CYCLE_KINDS = {'plain', 'list', 'dict', 'callable'}          # cycles through these only must be preserved
 ATOMS = ['abc', '', 'two words', 'a\nb', 'yes', '1', 0, 1, -7, 2 ** 70, 1.5, float('inf'), True, False, None, b'bytes', b'']
 
 
@@ -263,17 +315,22 @@ def gen_spec(r, max_nodes=12, cycles=True, names=True):
         return len(nodes) - 1
     kinds = ['plain', 'plain', 'list', 'dict', 'tuple', 'slots', 'slotsdict', 'slotssetstate', 'statedict', 'statetuple', 'newargs', 'newargsint', 'reducestate',
              'reducelist', 'reducedict', 'indexeddict', 'table', 'mylist', 'mydict', 'mystr', 'myint', 'enum', 'intenum', 'namedtuple', 'complex', 'set', 'frozenset',
-             'odict', 'deque', 'defaultdict', 'bytearray', 'range', 'decimal', 'fraction', 'timedelta', 'date', 'withclassref', 'frozen', 'tracking', 'propshadow', 'kwnew']
+             'odict', 'deque', 'defaultdict', 'bytearray', 'range', 'decimal', 'fraction', 'timedelta', 'date', 'withclassref', 'frozen', 'tracking', 'propshadow', 'kwnew',
+             'callable', 'eagerstate', 'snapshot', 'falsystate']
     if names:
         kinds += ['name', 'name']
     for _ in range(r.randint(1, max_nodes)):
         k = r.choice(kinds)
         classes.add('shape:' + k)
-        if k in ('plain', 'slotsdict', 'statedict', 'slots', 'slotssetstate', 'statetuple', 'newargs', 'withclassref', 'frozen', 'tracking'):
+        if k in ('plain', 'slotsdict', 'statedict', 'slots', 'slotssetstate', 'statetuple', 'newargs', 'withclassref', 'frozen', 'tracking', 'callable'):
             a, b = ref(), ref()
             nodes.append([k, a, b])
         elif k == 'propshadow':
             nodes.append([k, ref(), ref()])
+        elif k in ('eagerstate', 'snapshot'):
+            nodes.append([k, ref()])
+        elif k == 'falsystate':
+            nodes.append([k, r.randint(0, 9), r.randrange(len(FalsyState.STATES))])
         elif k == 'kwnew':
             nodes.append([k, r.choice([0, 5, -2])])
         elif k in ('list', 'tuple', 'mylist', 'reducelist', 'deque'):
@@ -342,9 +399,9 @@ def gen_spec(r, max_nodes=12, cycles=True, names=True):
 
 def children(n):
     k = n[0]
-    if k in ('plain', 'slotsdict', 'statedict', 'slots', 'slotssetstate', 'statetuple', 'newargs', 'withclassref', 'namedtuple', 'frozen', 'tracking'):
+    if k in ('plain', 'slotsdict', 'statedict', 'slots', 'slotssetstate', 'statetuple', 'newargs', 'withclassref', 'namedtuple', 'frozen', 'tracking', 'callable'):
         return [n[1], n[2]]
-    if k == 'propshadow':
+    if k in ('propshadow', 'eagerstate', 'snapshot'):
         return [n[1]]
     if k in ('list', 'tuple', 'mylist', 'reducelist', 'deque', 'set', 'frozenset'):
         return list(n[1])
@@ -392,7 +449,7 @@ def cycle_kinds(spec):
     return out
 
 
-DEEP_KINDS = {'kwnew', 'slots', 'slotsdict', 'slotssetstate', 'statedict', 'statetuple', 'newargs', 'newargsint', 'reducestate', 'reducelist', 'reducedict', 'indexeddict', 'table',
+DEEP_KINDS = {'eagerstate', 'snapshot', 'falsystate', 'kwnew', 'slots', 'slotsdict', 'slotssetstate', 'statedict', 'statetuple', 'newargs', 'newargsint', 'reducestate', 'reducelist', 'reducedict', 'indexeddict', 'table',
               'mylist', 'mydict', 'namedtuple', 'odict', 'deque', 'defaultdict', 'frozenset', 'withclassref'}
 
 
@@ -444,6 +501,14 @@ def build(spec):
             o[i] = ATOMS[n[1]]
         elif k == 'plain':
             o[i] = Plain(a=o[n[1]], b=o[n[2]])
+        elif k == 'callable':
+            o[i] = CallableObj(o[n[1]], o[n[2]])
+        elif k == 'eagerstate':
+            o[i] = EagerState(o[n[1]])
+        elif k == 'snapshot':
+            o[i] = Snapshot(o[n[1]])
+        elif k == 'falsystate':
+            o[i] = FalsyState(n[1], n[2])
         elif k == 'slots':
             o[i] = Slots(o[n[1]], o[n[2]])
         elif k == 'slotsdict':
@@ -522,7 +587,7 @@ def build(spec):
     for h, t in spec.get('cycles', []):
         x, y = o[h], o[t]
         k = nodes[h][0]
-        if k in ('plain', 'slotsdict', 'statedict', 'reducestate'):
+        if k in ('plain', 'slotsdict', 'statedict', 'reducestate', 'callable'):
             setattr(x, 'x' if k == 'statedict' else ('extra' if k == 'reducestate' else 'back'), y)
         elif k == 'slots':
             x.b = y
@@ -538,6 +603,64 @@ def r_cls(i):
 
 
 ATOM_SUBCLASS_KINDS = {'mystr', 'myint', 'newargsint', 'intenum', 'kwnew'}
+
+
+def truthy_states(spec):
+    """Counterfactual for F25: every FalsyState node whose state is false in a boolean context gets a truthy state instead."""
+    nodes = [list(n) for n in spec['nodes']]
+    changed = False
+    for n in nodes:
+        if n[0] == 'falsystate' and n[2] < FalsyState.N_FALSY:
+            n[2] = FalsyState.N_FALSY
+            changed = True
+    return {'nodes': nodes, 'root': spec['root'], 'cycles': spec.get('cycles', [])}, changed
+
+
+EAGER_KINDS = {'snapshot', 'eagerstate'}
+TWO_PHASE_CONTAINERS = {'list', 'dict', 'set', 'mylist', 'mydict', 'plain', 'callable', 'slotsdict', 'tracking', 'frozen', 'propshadow', 'withclassref'}
+
+
+def remap(n, m):
+    """node with its references mapped through m"""
+    n = list(n)
+    k = n[0]
+    if k in ('plain', 'slotsdict', 'statedict', 'slots', 'slotssetstate', 'statetuple', 'newargs', 'withclassref', 'namedtuple', 'frozen', 'tracking', 'callable'):
+        if k != 'withclassref':
+            n[1], n[2] = m[n[1]], m[n[2]]
+    elif k in ('propshadow', 'eagerstate', 'snapshot'):
+        n[1] = m[n[1]]
+        if k == 'propshadow':
+            n[2] = m[n[2]]
+    elif k in ('list', 'tuple', 'mylist', 'reducelist', 'deque', 'set', 'frozenset'):
+        n[1] = [m[j] for j in n[1]]
+    elif k in ('dict', 'mydict', 'reducedict', 'odict', 'defaultdict', 'indexeddict', 'table'):
+        n[1] = [[m[a], m[b]] for a, b in n[1]]
+    elif k == 'reducestate':
+        n[2] = m[n[2]]
+    return n
+
+
+def privatize(spec):
+    """Counterfactual for F26: every eager reader (Snapshot, EagerState) gets a private copy of the container it is given,
+    written inline below it, instead of an alias to a container that occurs earlier in the document."""
+    old = spec['nodes']
+    m, copy_at, pos = {}, {}, 0
+    for i, n in enumerate(old):
+        if n[0] in EAGER_KINDS and old[n[1]][0] in TWO_PHASE_CONTAINERS:
+            copy_at[i] = pos
+            pos += 1
+        m[i] = pos
+        pos += 1
+    new = []
+    for i, n in enumerate(old):
+        if i in copy_at:
+            new.append(remap(old[n[1]], m))
+            m2 = dict(m)
+            m2[n[1]] = copy_at[i]
+            new.append(remap(n, m2))
+        else:
+            new.append(remap(n, m))
+    return {'nodes': new, 'root': m[spec['root']], 'cycles': [[m[h], m[t]] for h, t in spec.get('cycles', [])]}, bool(copy_at)
 
 
 def unshare(spec, kinds=ATOM_SUBCLASS_KINDS):
@@ -557,9 +680,9 @@ def unshare(spec, kinds=ATOM_SUBCLASS_KINDS):
     for i in range(n0):
         n = nodes[i]
         k = n[0]
-        if k in ('plain', 'slotsdict', 'statedict', 'slots', 'slotssetstate', 'statetuple', 'newargs', 'withclassref', 'namedtuple', 'frozen', 'tracking'):
+        if k in ('plain', 'slotsdict', 'statedict', 'slots', 'slotssetstate', 'statetuple', 'newargs', 'withclassref', 'namedtuple', 'frozen', 'tracking', 'callable'):
             n[1], n[2] = fresh(n[1]), fresh(n[2])
-        elif k == 'propshadow':
+        elif k in ('propshadow', 'eagerstate', 'snapshot'):
             n[1] = fresh(n[1])
         elif k in ('list', 'tuple', 'mylist', 'reducelist', 'deque', 'set', 'frozenset'):
             n[1] = [fresh(j) for j in n[1]]
